@@ -63,7 +63,8 @@ pub fn construct(k: usize, i: usize, sp: &str) -> MDef {
         7 => st(&n("SAlias", i), vec![MField::new("a", l("HA")), MField::new("b", l("HB").opt()), MField::new("c", l("HP")), MField::new("d", l("HQ").attr(cs("cs::use"))), MField::new("e", l("HD"))]),
         8 => iface(&n("IEmpty", i), vec![], vec![]),
         9 => iface(&n("IBase", i), vec![l("HJ")], vec![]), // (HJ has a base of its own, which is NOT a base written here)
-        10 => iface(&n("IBases", i), vec![l("HI"), l("HJ")], vec![op("own", vec![], MRet::None)]),
+        // (attributes written on the references of a base list are attributes of those references)
+        10 => iface(&n("IBases", i), vec![l("HI").attr(MAttr::with("cs::first", vec![MArg::Ident("struct".into()), MArg::Str("a \\\"b\\\"".into())])), l("HJ").attr(cs("cs::second"))], vec![op("own", vec![], MRet::None)]),
         11 => iface(&n("IOps", i), vec![], vec![op("a", vec![], MRet::None), op("b", vec![], MRet::None)]),
         12 => iface(&n("IRet", i), vec![], vec![op("get", vec![MParam::new("key", MType::prim("string"))], MRet::Single { tag: None, stream: false, ty: l("HS") }), op("HE", vec![MParam::new("HC", l("HC")), MParam::new("other", l("HE"))], MRet::Single { tag: None, stream: false, ty: l("HE") })]),
         13 => iface(
@@ -128,7 +129,8 @@ pub fn construct(k: usize, i: usize, sp: &str) -> MDef {
             }
             d
         }
-        20 => en(&n("EU8", i), Some(MType::prim("uint8")), vec![enumerator_v("A", MInt::dec(1)), enumerator("B"), enumerator_v("C", MInt::spelled(255, "0xFF"))]),
+        // (... and so are attributes on the underlying type of an enum)
+        20 => en(&n("EU8", i), Some(MType::prim("uint8").attr(MAttr::with("cs::under", vec![MArg::Ident("u".into())]))), vec![enumerator_v("A", MInt::dec(1)), enumerator("B"), enumerator_v("C", MInt::spelled(255, "0xFF"))]),
         21 => en(&n("EI32", i), Some(MType::prim("int32")), vec![enumerator_v("A", MInt::spelled(-2147483648, "-2147483648")), enumerator("B"), enumerator_v("C", MInt::spelled(-16, "-0x10")), enumerator("D"), enumerator_v("E", MInt::spelled(3, "0b11"))]),
         22 => {
             let mut d = en(
